@@ -757,11 +757,14 @@ coap_add_option(coap_pdu_t *pdu, coap_option_num_t number, size_t len,
   return coap_add_option_internal(pdu, number, len, data);
 }
 
+static size_t coap_add_option_append(coap_pdu_t *pdu, coap_option_num_t number,
+                                     size_t len, const uint8_t *data);
+
 size_t
 coap_add_option_internal(coap_pdu_t *pdu, coap_option_num_t number, size_t len,
                          const uint8_t *data) {
   size_t optsize;
-  coap_opt_t *opt;
+  int added_hop_limit = 0;
 
   assert(pdu);
 
@@ -782,9 +785,25 @@ coap_add_option_internal(coap_pdu_t *pdu, coap_option_num_t number, size_t len,
     if (coap_check_option(pdu, COAP_OPTION_HOP_LIMIT, &opt_iter) == NULL) {
       size_t hop_limit = COAP_OPTION_HOP_LIMIT;
 
-      coap_insert_option(pdu, COAP_OPTION_HOP_LIMIT, 1, (uint8_t *)&hop_limit);
+      if (coap_insert_option(pdu, COAP_OPTION_HOP_LIMIT, 1,
+                             (uint8_t *)&hop_limit))
+        added_hop_limit = 1;
     }
   }
+
+  optsize = coap_add_option_append(pdu, number, len, data);
+  if (!optsize && added_hop_limit) {
+    /* The option was refused: do not leave the implicit Hop-Limit behind */
+    coap_remove_option(pdu, COAP_OPTION_HOP_LIMIT);
+  }
+  return optsize;
+}
+
+static size_t
+coap_add_option_append(coap_pdu_t *pdu, coap_option_num_t number, size_t len,
+                       const uint8_t *data) {
+  size_t optsize;
+  coap_opt_t *opt;
 
   if (number < pdu->max_opt) {
     coap_log_debug("coap_add_option: options are not in correct order\n");
